@@ -4,7 +4,7 @@ import TypstyleModel.Model.Stylist.Chain
 import TypstyleModel.Model.Stylist.Plain
 /-! Open recursion: every converter takes the child converters as a `Rec`. -/
 namespace Typstyle
-open Pretty
+open Twin
 
 /-- `MarkupScope` (markup.rs:14). -/
 inductive Scope | document | contentBlock | strong | item deriving DecidableEq, Repr
@@ -33,7 +33,7 @@ def childOr (o : Option ANode) (what : String) : M ANode :=
 def optionalParen (e : Env) (body : Doc) (d0 d1 : String) : Doc :=
   let op := Doc.falt (e.soft d0 ++ hardline) .nil
   let cl := Doc.falt (hardline ++ e.soft d1) .nil
-  (((op ++ body).nst e.cfg.tab) ++ cl).grp
+  (((op ++ body).nstTab) ++ cl).grp
 
 /-- `is_paren_needed` (parened_expr.rs:85). -/
 def isParenNeeded (n : ANode) : Bool :=
